@@ -132,6 +132,12 @@ func (w *W) Fail(f Failure) {
 	w.failures++
 }
 
+// Digest emits a per-case digest that the supervisor compares across process
+// variants (same index => same digest under every CPU mask).
+func (w *W) Digest(idx uint64, d string) {
+	fmt.Fprintf(w.out, "D %d %s\n", idx, d)
+}
+
 func (w *W) flushSummary() {
 	s := w.sum
 	s.Nontrivial = make([]uint64, 0, len(w.nontriv))
